@@ -51,6 +51,17 @@ func (g *gen) header() {
 	g.p("var _ protoiface.Methods")
 	g.p("func vhIdx(p string, i int) string { return p + \".\" + string(rune('0'+i)) }")
 	g.p("")
+	g.p("// vhLen: symbolic length bound of strings/bytes: large for the field under test, small when nested")
+	g.p("func vhLen(d int) int {")
+	g.p("\tif d >= 1 {")
+	g.p("\t\treturn %d", g.strLen)
+	g.p("\t}")
+	g.p("\tif %d < 4 {", g.strLen)
+	g.p("\t\treturn %d", g.strLen)
+	g.p("\t}")
+	g.p("\treturn 4")
+	g.p("}")
+	g.p("")
 }
 
 // ---------- per-kind snippets ----------
@@ -83,8 +94,14 @@ func (g *gen) symExpr(f *Field, name string, strBound int) string {
 	case "double":
 		return fmt.Sprintf("math.Float64frombits(vhF64(%s))", name)
 	case "string":
+		if strBound < 0 {
+			return fmt.Sprintf("vhString(%s, vhLen(d))", name)
+		}
 		return fmt.Sprintf("vhString(%s, %d)", name, strBound)
 	case "bytes":
+		if strBound < 0 {
+			return fmt.Sprintf("vhBytes(%s, vhLen(d))", name)
+		}
 		return fmt.Sprintf("vhBytes(%s, %d)", name, strBound)
 	}
 	panic("symExpr " + f.Kind)
@@ -278,8 +295,7 @@ func (g *gen) nestedValue(f *Field, name string, idx string) []string {
 			"}",
 		}
 	}
-	bound := g.strLen
-	return []string{fmt.Sprintf("v := %s", g.symExpr(f, name, bound))}
+	return []string{fmt.Sprintf("v := %s", g.symExpr(f, name, -1))}
 }
 
 func (g *gen) buildField(m *Message, f *Field) {
@@ -302,10 +318,10 @@ func (g *gen) buildField(m *Message, f *Field) {
 			}
 		case "bytes":
 			g.p("\tif vhChoice(p+\".nonnil\", 2) == 1 {")
-			g.p("\t\tx.%s = %s", f.GoName, g.symExpr(f, "p", g.strLen))
+			g.p("\t\tx.%s = %s", f.GoName, g.symExpr(f, "p", -1))
 			g.p("\t}")
 		default:
-			g.p("\tx.%s = %s", f.GoName, g.symExpr(f, "p", g.strLen))
+			g.p("\tx.%s = %s", f.GoName, g.symExpr(f, "p", -1))
 		}
 	case "repeated":
 		g.p("\tn := vhChoice(p+\".n\", %d)", g.listN+2)
